@@ -66,18 +66,35 @@ func (s *session) Connection() net.Conn {
 }
 
 func (s *session) Decrypter() crypto.Decrypter {
+	s.mu.Lock()
+	defer s.mu.Unlock()
+
 	// Return the next cryptographer when possible
-	// This allows sessions to switch encryption
+	// The peer encrypts everything it sends after the request which led to the new cryptographer.
 	if s.nextCryptographer != nil {
-		s.cryptographer = s.nextCryptographer
-		s.nextCryptographer = nil
+		return s.nextCryptographer
 	}
 
 	return s.cryptographer
 }
 
 func (s *session) Encrypter() crypto.Encrypter {
+	s.mu.Lock()
+	defer s.mu.Unlock()
+
 	return s.cryptographer
+}
+
+// activateNextCryptographer lets the cryptographer which was set with SetCryptographer() encrypt
+// the outgoing data. The connection calls it after the response to the last plain request was written.
+func (s *session) activateNextCryptographer() {
+	s.mu.Lock()
+	defer s.mu.Unlock()
+
+	if s.nextCryptographer != nil {
+		s.cryptographer = s.nextCryptographer
+		s.nextCryptographer = nil
+	}
 }
 
 func (s *session) PairSetupHandler() ContainerHandler {
@@ -91,9 +108,11 @@ func (s *session) PairVerifyHandler() PairVerifyHandler {
 func (s *session) SetCryptographer(c crypto.Cryptographer) {
 	verifYield("setcrypt", s.connection, nil)
 	// Temporarily set the cryptographer as the nextCryptographer
-	// The nextCryptographer is used the next time Decrypter() is called.
-	// Otherwise the Encrypter() encrypts differently than the previous Decrypter()
+	// The nextCryptographer decrypts from now on, and encrypts after the pending
+	// response was written. Otherwise the response to a plain request would be encrypted.
+	s.mu.Lock()
 	s.nextCryptographer = c
+	s.mu.Unlock()
 }
 func (s *session) SetPairSetupHandler(c ContainerHandler) {
 	s.pairStartHandler = c
